@@ -503,7 +503,14 @@ fn map_by_value<const N: usize>(rep: &mut Report) {
     // from_fn_! by value
     ledger_reset();
     rep.transitions += 1;
-    let out: [Tracked; N] = konst::array::from_fn_!(|i| Tracked::new(7 * i as u64));
+    // inside catch(): code expanded from the macro panics at a location in this file
+    let out: [Tracked; N] = match catch(|| konst::array::from_fn_!(|i| Tracked::new(7 * i as u64))) {
+        Ok(a) => a,
+        Err(p) => {
+            fail(rep, "C11", "array::from_fn_!", N, "", "result", "an array".into(), format!("panic: {p}"));
+            return;
+        }
+    };
     let got: Vec<u64> = out.iter().map(|t| t.payload).collect();
     let exp: Vec<u64> = (0..N).map(|i| 7 * i as u64).collect();
     drop(out);
@@ -512,6 +519,12 @@ fn map_by_value<const N: usize>(rep: &mut Report) {
 }
 
 fn copy_builder(rep: &mut Report) {
+    if let Err(p) = catch(|| copy_builder_inner(rep)) {
+        fail(rep, "C11", "ArrayBuilder::copy / ArrayConsumer::copy", 3, "push,copy,push..", "copies are independent", "no panic".into(), format!("panic: {p}"));
+    }
+}
+
+fn copy_builder_inner(rep: &mut Report) {
     // Copy element type: copy() gives an independent builder with the same pushed prefix
     rep.transitions += 1;
     let mut a: ArrayBuilder<u8, 3> = ArrayBuilder::new();
